@@ -540,6 +540,17 @@ impl Astro {
     }
 }
 
+#[cfg(feature = "verif")]
+impl Astro {
+    pub(crate) fn verif_new(julian_day: f64) -> Self {
+        Self::new(julian_day)
+    }
+
+    pub(crate) fn verif_rsum(&self) -> f64 {
+        self.rsum
+    }
+}
+
 #[derive(Debug, Clone)]
 pub struct AstroDay {
     astros: Vec<Astro>,
